@@ -117,6 +117,25 @@ def judgeLine (line : String) : String :=
       else if rhs.head? == some "panic" then s!"SPEC {cls} decoder-panicked"
       else s!"DIFF {cls} model={showRes m} impl={" ".intercalate rhs}"
     | none => "BAD parse"
+  | "encbatch" :: _ :: rest =>
+    -- members: | <bo> <geom tokens> ...
+    let rec members (t : Tok) (fuel : Nat) : List (BO × BGeom) :=
+      match fuel, t with
+      | fuel+1, "|" :: o :: gt =>
+        match geomOfToks gt with
+        | some (g, r) => (boOf o, g) :: members r fuel
+        | none => []
+      | _, _ => []
+    let ms := members rest 64
+    match rhs with
+    | "late" :: outs =>
+      let want : List String := ms.flatMap fun (bo, g) =>
+        match serialize bo g with
+        | some bs => ["x" ++ bytesToHex bs, "h" ++ String.ofList (hexEncode bs)]
+        | none => ["x", "h!"]
+      if outs == want then s!"OK encbatch-{ms.length}"
+      else s!"SPEC encbatch-{ms.length} a-kept-encoding-differs-from-the-OGC-layout-when-read-after-later-Encode-calls"
+    | _ => s!"SPEC encbatch {" ".intercalate rhs}"
   | "skip" :: _ => "OK skipped"
   | _ => "BAD line"
 
